@@ -126,6 +126,7 @@ class StateHist(Engine):
         nops *= stream(seed, "size").choice([1, 1, 1, 2, 3]) if tier == "thorough" else 1
         ops = []
         ids = []
+        grown = 0
         ops.append({"op": "root", "id": "s0", "values": rand_updates(ro, len(gf))})
         ids.append("s0")
         for i in range(nops):
@@ -140,6 +141,20 @@ class StateHist(Engine):
                 nid = f"s{len(ids)}"
                 ops.append({"op": "child", "id": nid, "of": parent, "updates": rand_updates(ro, 3)})
                 ids.append(nid)
+            elif r < 0.47 and grown < 2:
+                # the problem goes on being built while states over it are alive: a refused add_fluent (the user type of
+                # its parameter is named like an existing fluent) and/or a further fluent with a default value
+                if ro.random() < 0.5:
+                    ops.append({"op": "grow", "how": "clash", "like": ro.choice(fluents)["name"]})
+                tk = ro.choice(["bool", "int", "real"])
+                t = {"bool": ["bool"], "int": ["int", 0, 5], "real": ["real", None, None]}[tk]
+                dv = ro.choice(values_for(t, objs, tmap))
+                name = f"g{grown}"
+                grown += 1
+                ops.append({"op": "grow", "how": "ok", "name": name, "type": t, "default": dv})
+                gf.append(["f", name])
+                ftype[name] = t
+                fdef[name] = dv
             elif r < 0.49:
                 # work done on a CLONE of the states' problem (what every compiler does): nothing a state answers may change
                 fd = ro.choice(fluents)
@@ -270,6 +285,27 @@ class StateHist(Engine):
                     ctx.probe("chain-path")
                 ctx.ev(i, "child", op["id"], "of", op["of"], len(ups), "condensing" if condensing else "chained")
                 ctx.outcome("child", "condense" if condensing else "chain")
+            elif k == "grow":
+                if op["how"] == "clash":
+                    if op.get("like") not in W.fluents:
+                        continue
+                    try:
+                        p.add_fluent(f"clash_{i}", W.env.type_manager.BoolType(),
+                                     d=W.env.type_manager.UserType(op["like"]))
+                        ctx.ev(i, "grow", "clash", "accepted")
+                    except Exception as ex:
+                        ctx.ev(i, "grow", "clash", type(ex).__name__)
+                        ctx.probe("refused-add-fluent-on-the-states-problem")
+                else:
+                    if op["name"] in W.fluents:
+                        continue
+                    fl = p.add_fluent(op["name"], W.type(op["type"]), default_initial_value=W.expr(op["default"]))
+                    W.fluents[op["name"]] = fl
+                    fe = ["f", op["name"]]
+                    gfe.append((tuple(map(str, _flat(fe))), fe, W.expr(fe)))
+                    defaults[op["name"]] = op["default"]
+                    ctx.probe("fluent-added-while-states-alive")
+                ctx.outcome("grow", op["how"])
             elif k == "aside":
                 if op["fluent"] not in W.fluents:
                     continue
